@@ -66,6 +66,7 @@ def run(ctx) -> None:
     r01_2(ctx)
     r01_3(ctx)
     r01_4(ctx)
+    r01_5(ctx)
     ctx.floor("merge_cells", 6)
     ctx.floor("yield_sites", 25)
     ctx.floor("source_loops", 6)
@@ -170,6 +171,49 @@ def r01_1(ctx) -> None:
                       + (" (ties go to the iterable given first, in both directions)" if outcome == "EQ" else ""),
                       witness=f"{how}; evaluated: {table[cell]}")
     ctx.tables["merge entry order"] = table
+    # R01.1b: ordering decisions go through the heap entries only (holder + position); a direct
+    # comparison of two holders bypasses the position tie-break
+    units = [x for x in u.module.units.values() if x is u or x.parent is u]
+    direct = []
+    for x in units:
+        xcfg = cfg_of(x)
+        for n in xcfg.nodes:
+            if n.kind == "op" and n.info.get("op") == "compare" and not n.tag:
+                vals = [ctx.vals.expr(x, o, n) for o in n.info.get("operands", [])]
+                if sum(1 for v in vals if any(a[0] == "libinst" and a[1].endswith("_KeyIter") for a in v)) >= 2:
+                    direct.append((x, n))
+    ctx.count("merge_units", len(units))
+    for x, n in direct:
+        ctx.fail("R01.1", x, n, "two head holders are compared directly, outside the (holder, position) heap entries: "
+                 "for equal heads the decision ignores the position of the iterable, so merge is no longer stable", node=n)
+    if not direct:
+        ctx.ok("R01.1", u, "head holders are only ordered through the (holder, position) heap entries")
+
+
+# --------------------------------------------------------------------------- R01.5
+def r01_5(ctx) -> None:
+    """tee children: the child-local premises that keep every child's item sequence intact
+    (shared with C04 R04.5 / C09): a finishing child removes exactly its own buffer."""
+    from . import c04
+    ctx.rule("R01.5", "tee: a finishing child removes exactly its own buffer (siblings keep receiving every item)")
+
+    class _R:
+        def __init__(self, c):
+            self._c = c
+
+        def __getattr__(self, name):
+            return getattr(self._c, name)
+
+        def ok(self, rule, *a, **k):
+            return self._c.ok("R01.5", *a, **k)
+
+        def check(self, cond, rule, *a, **k):
+            return self._c.check(cond, "R01.5", *a, **k)
+
+        def fail(self, rule, *a, **k):
+            return self._c.fail("R01.5", *a, **k)
+
+    c04.r04_5(_R(ctx))
 
 
 # --------------------------------------------------------------------------- R01.2
